@@ -25,7 +25,7 @@ OBLIGATIONS = [NS + t for t in [
     "hybrid_pointsource_eq_fourier", "same_sigma_grid", "sigma_first", "sigma_last", "repo_defaults_admissible", "repo_pixel_box", "repo_pixel_box_lo",
 ]]
 # kernels whose translated source text (Gen/Kernels.lean) is proved equal to the model kernel this property's theorems are about
-GEN_KERNELS = ["render_sersic_2d", "render_gaussian_pixel_term", "render_gaussian_fourier_term"]
+GEN_KERNELS = ["render_sersic_2d", "render_gaussian_pixel_term", "render_gaussian_fourier_term", "hybrid_broaden"]
 MIRRORED_FILES = ["pysersic/rendering.py"]
 ASSUMPTIONS = [
     "quantitative agreement between option settings (6e-3, 5e-3, 1e-3, 2e-5) is observed on the real code with the property's tolerances, not proved",
